@@ -138,7 +138,8 @@ var c03Tokens = []string{"func", "type", "struct", "interface", "map", "var", "c
 	"switch", "case", "default", "break", "continue", "go", "defer", "nil", "true", "false", "(", ")", "{", "}", "[", "]", ",", ";", ":", ".", "...",
 	":=", "=", "+", "-", "*", "/", "%", "&", "|", "^", "<<", ">>", "&^", "&&", "||", "!", "<", ">", "<=", ">=", "==", "!=", "++", "--", "+=", "-=", "*=",
 	"x", "y", "f", "T", "main", "int", "string", "byte", "float64", "bool", "0", "1", "42", "1.5", "\"s\"", "'c'", "`r`", "len", "append", "make",
-	"println", "fmt", "\n", "\n", "//c\n", "/*c*/", "_", "\"fmt\"", "\"nosuch/none\"", "0x", "1e", "'", "\"", "`", "\\", "#", "$", "@", "~", "?"}
+	"println", "fmt", "\n", "\n", "//c\n", "/*c*/", "_", "\"fmt\"", "\"nosuch/none\"", "0x", "1e", "'", "\"", "`", "\\", "#", "$", "@", "~", "?",
+	`"\400"`, `'\400'`, `"\777"`, `x "\400"`, `"\u00e9"`, `'\''`, `"\x41"`} // (octal escapes above 255 pass the scanner but not strconv)
 
 func c03Mutate(r *RNG, s string) string {
 	if s == "" {
@@ -204,7 +205,7 @@ func c03Tree(r *RNG) (map[string]string, string) {
 				fmt.Fprintf(&sb, "package %s\n\n", Pick(r, []string{"a", "b", "main", "sub", "", "1x"}))
 			}
 			for k := r.Intn(3); k > 0; k-- {
-				fmt.Fprintf(&sb, "import %s\n", Pick(r, []string{`"a"`, `"b"`, `"c"`, `"a/sub"`, `"fmt"`, `"nosuch/none"`, `x "a"`, `"`, `5`, `""`, `"../a"`, `( "a"; "b" )`}))
+				fmt.Fprintf(&sb, "import %s\n", Pick(r, []string{`"a"`, `"b"`, `"c"`, `"a/sub"`, `"fmt"`, `"nosuch/none"`, `x "a"`, `"`, `5`, `""`, `"../a"`, `( "a"; "b" )`, `( x "\400" )`, `"\400"`, `y "\777"`}))
 			}
 			sb.WriteString(Pick(r, []string{"func F() int {\n\treturn 1\n}\n", "var V = 3\n", "func init() {\n\tprintln(\"init\")\n}\n", "type T struct {\n\tA int\n}\n", "func (", "}", "", "func F() int { }\nvar W = F()\n"}))
 			full := name
